@@ -125,14 +125,35 @@ def showWPoll : Option (Poll WRet) → String
   | some .pending => "P"
   | some (.ready x) => showWRet x
 
+/-- an act of the `awrite` script: one of the model's `WAct`s, or `m<k>` = `set_max_len(k)` (which, taking `&mut self`, can only be
+    called when no future is alive: a pending one is dropped first). -/
+inductive XAct where
+  | act (a : WAct Val)
+  | setMax (k : Nat)
+
+def parseXAct (vs : List Val) (s : String) : Option XAct :=
+  match s.toList with
+  | 'm' :: r => (String.ofList r).toNat?.map .setMax
+  | _ => (parseWAct vs s).map .act
+
+def runX : List XAct → WSys → List (Option (Poll WRet)) × WSys
+  | [], s => ([], s)
+  | .act a :: r, s =>
+    let (s', o) := s.act valCodec a
+    let (os, s'') := runX r s'
+    (o :: os, s'')
+  | .setMax k :: r, s =>
+    let (os, s'') := runX r ⟨s.wr.setMaxLen k, none⟩
+    (none :: os, s'')
+
 def awriteOp (w : List String) : String :=
   match w with
   | [ml, vs, sc, acts] =>
     match ml.toNat?, parseVals vs, parseScript sc with
     | some ml, some vs, some sc =>
-      match (splitList acts).mapM (parseWAct vs) with
+      match (splitList acts).mapM (parseXAct vs) with
       | some acts =>
-        let (os, s) := WSys.run valCodec acts ⟨AWriter.init ml sc, none⟩
+        let (os, s) := runX acts ⟨AWriter.init ml sc, none⟩
         s!"{joinOrDash (os.map showWPoll)} {hexOrDash s.wr.snk.out} buf={s.wr.core.buffer.length}"
       | none => "bad-op"
     | _, _, _ => "bad-op"
